@@ -13,14 +13,14 @@ ASSUMPTIONS = [
 ]
 
 ORACLE = {"tj_scc", "ko_scc", "tjs_scc", "ss_scc", "sp_scc", "tj_dense", "ko_dense", "tjs_dense", "ss_dense", "sp_dense",
-          "x_tjko", "x_tjsss", "sb_sorted", "sb_part", "sb_scc", "psb_sorted", "psb_part", "psb_scc"}
-CORR = {"parse", "tj_eq", "ko_eq", "tjs_eq", "ss_eq", "sp_eq", "sp_model", "fin", "csz", "sb_eq", "psb_eq"}
+          "x_tjko", "x_tjsss", "cli_scc", "cli_sizes", "sb_sorted", "sb_part", "sb_scc", "psb_sorted", "psb_part", "psb_scc"}
+CORR = {"parse", "cli_prep", "cli_eq", "tj_eq", "ko_eq", "tjs_eq", "ss_eq", "sp_eq", "sp_model", "fin", "csz", "sb_eq", "psb_eq"}
 
 
 def nontrivial(case):
     if int(case.get("n", "0")) < 2 or int(case.get("arcs", "0")) < 1:
         return None
-    return (case.get("g"), case.get("spt"))
+    return (case.get("g"), case.get("spt"), case.get("renumber"), case.get("j"))
 
 
 def bucket(n):
@@ -46,9 +46,12 @@ def run_scc(ctx, name, harness_args, seed_offset, timeout=3000):
         dist["mode=" + name] += 1
         dist["kind=" + case.get("kind", "?")] += 1
         dist["n=" + bucket(int(case.get("n", "0")))] += 1
-        dist["early_exit=" + res.get("i_early", "?")] += 1
-        k = int(res.get("i_k", "0") or 0)
-        dist["sccs=" + ("0" if k == 0 else "1" if k == 1 else "2-4" if k <= 4 else ">4")] += 1
+        if "i_early" in res:
+            dist["early_exit=" + res["i_early"]] += 1
+            k = int(res.get("i_k", "0") or 0)
+            dist["sccs=" + ("0" if k == 0 else "1" if k == 1 else "2-4" if k <= 4 else ">4")] += 1
+        if "renumber" in case:
+            dist["cli_renumber=" + case["renumber"]] += 1
         for t in case.get("spt", "").split(","):
             if t:
                 dist["pool=" + t] += 1
@@ -82,7 +85,8 @@ def run(ctx):
         ("exh", ["--mode", "exh", "--maxn", "3" if quick else "4"], 0),
         ("exh5", ["--mode", "exh5", "--count", "300" if quick else "20000"], 1),
         ("rand", ["--mode", "rand", "--count", "400" if quick else "6000", "--maxn", "60" if quick else "100"], 2),
-        ("big", ["--mode", "big", "--count", "6" if quick else "40", "--maxn", "150"], 3),
+        ("big", ["--mode", "big", "--count", "6" if quick else "24", "--maxn", "150"], 3),
+        ("cli", ["--mode", "cli", "--count", "60" if quick else "600", "--maxn", "40"], 4),
     ]
     rs = [run_scc(ctx, name, hargs, so) for name, hargs, so in runs]
     r = codec.merge(rs)
@@ -90,7 +94,8 @@ def run(ctx):
                  "random digraphs (sparse, dense, deep chains, one large SCC, DAGs, DAGs of cycles, self-loops, Hamiltonian "
                  "paths closing on the root, trees with back arcs; half of them relabelled by a random permutation); each with "
                  "tarjan, kosaraju (+ hand-built transpose), tarjan/symm_seq/symm_par on the symmetrisation (thread pools "
-                 "1..16), sort_by_size on Tarjan's result and par_sort_by_size on Kosaraju's; non-trivial = at least 2 nodes "
+                 "1..16), sort_by_size on Tarjan's result and par_sort_by_size on Kosaraju's; plus the command-line entry point "
+                 "webgraph-sccs (compressed graph, with/without --renumber, -j 1/2/4) on small fixed and random graphs; non-trivial = at least 2 nodes "
                  "and one arc; distinct = different (graph, pool sizes)")
     violations, known = codec.verdict("C15", r)
     r.update({"violations": violations, "known": known})
